@@ -18,6 +18,7 @@ EXTENDS Repo
 CONSTANTS NonCanon, FsckFlags, Damages,
           Missized,     \* objects whose committed pointer is canonical in form but names a size other than the object's length:
                         \* nothing below depends on it - an object is sound when its bytes hash to its id
+          Includes,     \* the sets of paths lfs.fetchinclude may name (chosen by the fsck step)
           Excludes      \* the sets of paths lfs.fetchexclude may name (fixed per behaviour)
 
 VARIABLES bad,      \* oids moved aside to lfs/bad
@@ -73,8 +74,10 @@ MayBadObjects(scope) == {o \in MayScope(scope) : local[o] # "valid"} \ BadObject
 BadPointersAt(P) == {p \in P : TreeOf(HeadCommit)[p] = "raw" \/ TreeOf(HeadCommit)[p] \in NonCanon}
 BadPointers == BadPointersAt(Paths \ excl)
 
-Fsck(flag, scope) ==
-  /\ ~fdone /\ HeadCommit # NoCommit /\ flag \in FsckFlags /\ scope \in {"head", "tip", "tip2"}
+\* incl: the paths lfs.fetchinclude names (empty: not set).  git-lfs-fsck(1) leaves out what
+\* lfs.fetchexclude names and nothing else: the verdict has no use for incl.
+Fsck(flag, scope, incl) ==
+  /\ ~fdone /\ incl \in Includes /\ HeadCommit # NoCommit /\ flag \in FsckFlags /\ scope \in {"head", "tip", "tip2"}
   /\ (scope # "head" => HasChain(scope) /\ flag = "objects" /\ excl = {})
   /\ LET chkObj == flag \in {"none", "objects", "dry-run"}
          chkPtr == flag \in {"none", "pointers", "dry-run"}
@@ -87,7 +90,7 @@ Fsck(flag, scope) ==
      IN /\ local' = [o \in Oids |-> IF o \in moved THEN "absent" ELSE local[o]]
         /\ bad' = bad \cup moved
         /\ fdone' = TRUE /\ excl' = excl
-        /\ Log([a |-> "fsck", flag |-> flag, scope |-> scope, excl |-> excl, mayBadPointers |-> mbp,
+        /\ Log([a |-> "fsck", flag |-> flag, scope |-> scope, excl |-> excl, incl |-> incl, mayBadPointers |-> mbp,
                 \* shared: checked for one file although another file of theirs is excluded; sharedTree: both files in HEAD's tree
                 shared |-> (IF scope = "head" THEN HeadOidsAt(Paths \ excl) \cap HeadOidsAt(excl) ELSE {}),
                 sharedTree |-> (IF scope = "head" THEN {TreeOf(HeadCommit)[p] : p \in Paths \ excl} \cap {TreeOf(HeadCommit)[p] : p \in excl} \cap Oids ELSE {}),
@@ -100,7 +103,7 @@ FNext == \/ \E b \in Branches, p \in Paths, blob \in Blobs, g \in Ages : FCommit
          \/ \E b, o \in Branches : FMerge(b, o)
          \/ \E o \in Oids, h \in Damages : FDamage(o, h)
          \/ \E p \in Paths, o \in Oids : FStage(p, o)
-         \/ \E f \in FsckFlags, s \in {"head", "tip", "tip2"} : Fsck(f, s)
+         \/ \E f \in FsckFlags, s \in {"head", "tip", "tip2"}, i \in Includes : Fsck(f, s, i)
 FSpec == FInit /\ [][FNext]_fvars
 
 \* C13 on the design
